@@ -10,4 +10,6 @@ for b in crypto/test/algorithmTest crypto/test/eccTest crypto/test/rsaTest crypt
   echo "=== $b"
   ( cd "$(dirname $b)" && ./"$(basename $b)" ) || rc=1
 done
+# MatrixSSL's own self-interoperability test (not part of the pinned 106, run as an extra regression gate for fix: commits)
+if [ -x matrixssl/test/sslTest ]; then echo "=== matrixssl/test/sslTest"; ( cd matrixssl/test && ./sslTest >/dev/null 2>&1 ) || { echo "sslTest FAILED"; rc=1; }; fi
 exit $rc
